@@ -148,3 +148,63 @@ func VerifC16_LocalVerify() {
 		}
 	}
 }
+
+// VerifC16_LocalVerifyStray: beside chunk 0 in its proper place there is a file named after it
+// in a directory the store never reads (wrong prefix directory, or the copy of a store nested
+// below this one), whose content does or does not match the name.  It is not a chunk of this
+// store: verify judges chunk 0 by its own file, and never removes the stray.
+func VerifC16_LocalVerifyStray() {
+	unc := vChoose("uncompressed", 2) == 1
+	repair := vChoose("repair", 2) == 1
+	base := vTempDir()
+	s, _ := NewLocalStore(base, StoreOptions{Uncompressed: unc})
+	c := NewChunk([]byte{0x40, 1})
+	s.StoreChunk(c)
+	_, p := s.nameFromID(c.ID())
+	bad := verifSymChoice("damaged", 2) == 1
+	if bad {
+		other := []byte{0x7f}
+		if !unc {
+			other, _ = Compress(other)
+		}
+		os.WriteFile(p, other, 0644)
+	}
+	strayKind := 1 + vChoose("stray", 3)
+	var stray string
+	{
+		id0 := c.ID()
+		hx := verifHexOf(id0[:])
+		ext := CompressedChunkExt
+		if unc {
+			ext = UncompressedChunkExt
+		}
+		stray = base + "/zzzz/" + hx + ext
+		if strayKind == 3 {
+			stray = base + "/backup/" + hx[0:4] + "/" + hx + ext
+		}
+		content := []byte{0x40, 1}
+		if strayKind >= 2 {
+			content = []byte{0x7e} // does not hash to the ID it is named after
+		}
+		if !unc {
+			content, _ = Compress(content)
+		}
+		os.MkdirAll(filepath.Dir(stray), 0755)
+		os.WriteFile(stray, content, 0644)
+	}
+	var out bytes.Buffer
+	n := 1 + vChoose("workers", 2)
+	err := s.Verify(context.Background(), n, repair, &out)
+	vCover("verify-returned")
+	vAssert(err == nil, "verify failed on a readable store")
+	_, statErr := os.Stat(stray)
+	vAssert(statErr == nil, "verify removed a chunk-named file outside the store's layout")
+	_, statErr = os.Stat(p)
+	gone := os.IsNotExist(statErr)
+	if bad && repair {
+		vAssert(gone, "verify --repair left a chunk that does not match its ID")
+	} else {
+		vAssert(!gone, "verify removed a chunk it should not touch (valid, or no repair requested)")
+	}
+	// (the text of the report goes through fmt, which the engine stubs: not decided here)
+}
